@@ -64,6 +64,7 @@ func (x *Exec) call(st *State, in ssa.Instruction, cc *ssa.CallCommon, res ssa.V
 	ord := x.siteOrdinal(in, "call "+siteName)
 	site := fmt.Sprintf("call %s#%d", siteName, ord)
 	x.markSite(site)
+	x.noteSiteHit(st, site)
 	// site assertions from the caller's contract
 	if x.con != nil {
 		for _, cl := range x.con.Asserts[site] {
@@ -312,6 +313,9 @@ func (x *Exec) applyContract(st *State, in ssa.Instruction, tgt *target, recv *v
 	}
 	// 4. ensures
 	for _, cl := range c.Ens {
+		if strings.Contains(cl.Text, "hits(") {
+			continue // about the callee's own activation (its call-site counters): nothing a caller can use
+		}
 		env := x.newEnvFor(st, pre, tgt.pkg)
 		env.bindCallArgs(tgt, recv, args)
 		env.callee = tgt
@@ -970,6 +974,9 @@ func (x *Exec) applyInvoke(st, pre *State, in ssa.Instruction, tgt *target, ic *
 			reqs = append(reqs, env.evalBool(cl.Expr))
 		}
 		for _, cl := range ccon.Ens {
+			if strings.Contains(cl.Text, "hits(") {
+				continue
+			}
 			env := mkEnv(pre, pre)
 			for k, v := range bound {
 				env.names[k] = v
@@ -1017,6 +1024,61 @@ func (x *Exec) markSite(site string) {
 		r.seenSites = map[string]bool{}
 	}
 	r.seenSites[site] = true
+}
+
+// siteID: a small integer naming a call site (key of the SiteHits ghost).
+func (vc *VC) siteID(site string) string {
+	if vc.siteIDs == nil {
+		vc.siteIDs = map[string]int{}
+	}
+	id, ok := vc.siteIDs[site]
+	if !ok {
+		id = len(vc.siteIDs) + 1
+		vc.siteIDs[site] = id
+	}
+	return fmt.Sprint(id)
+}
+
+// conUsesHits: the contract mentions hits("<site>") somewhere.
+func conUsesHits(con *Contract) bool {
+	if con == nil {
+		return false
+	}
+	has := func(cls []*Clause) bool {
+		for _, cl := range cls {
+			if strings.Contains(cl.Text, "hits(") {
+				return true
+			}
+		}
+		return false
+	}
+	if has(con.Ens) || has(con.Maintains) {
+		return true
+	}
+	for _, cls := range con.Inv {
+		if has(cls) {
+			return true
+		}
+	}
+	for _, cls := range con.Asserts {
+		if has(cls) {
+			return true
+		}
+	}
+	return false
+}
+
+// noteSiteHit: ghost counter of executions per call site of the function under contract (hits("call f#k")), kept
+// only when its contract mentions one.
+func (x *Exec) noteSiteHit(st *State, site string) {
+	if x.depth > 0 || !conUsesHits(x.con) {
+		return
+	}
+	vc := x.vc
+	vc.regComp("SiteHits", "(Array Int Int)")
+	cur := vc.get(st, "SiteHits")
+	id := vc.siteID(site)
+	vc.set(st, "SiteHits", store(cur, id, app("+", sel(cur, id), "1")))
 }
 
 // frozenCheck: writing into a backing array that some callee retained (contract clause `freezes`) is an error.
@@ -1144,6 +1206,7 @@ func (x *Exec) spawnCheck(st *State, g *ssa.Go) {
 	for _, a := range cc.Args {
 		args = append(args, val{x.value(a), a.Type(), x.vc.sortOf(a.Type())})
 	}
+	x.noteSiteHit(st, site)
 	if x.con != nil {
 		for _, cl := range x.con.Asserts[site] {
 			env := x.newEnv(st, x.oldOf(st))
